@@ -112,3 +112,107 @@ def coverage(ctx, rows):
     ctx.distinct = len({json.dumps(h["ops"], sort_keys=True) for h in rows if any(s["outs"] for s in h["steps"])})
     ctx.samples = [{"shape": h.get("shape"), "ops": [o["k"] + (":" + o["note"] if o.get("note") else "") for o in h["ops"]][:60],
                     "outputs": [s["outs"] for s in h["steps"] if s["outs"]][:6]} for h in rows[:2]]
+
+
+# ---------------------------------------------------------------- shared pipeline of C01 / C02 / C13 / C14
+def mon_class(line):
+    """which property a monitor line of the processor harness belongs to (None = machinery)"""
+    if line.startswith("processor panicked"):
+        return "C13"
+    if line.startswith("C01") or line.startswith("stored VAA disappeared"):
+        return "C01"
+    if line.startswith("C02") or line.startswith("own observation broadcast"):
+        return "C02"
+    if line.startswith("C03"):
+        return "C03"
+    if line.startswith("C14"):
+        return "C14"
+    return None
+
+
+def mon_key(pid, line):
+    """stable class key of a monitor line (used to match open known findings)"""
+    import re
+    s = re.sub(r'\(\d+ of \d+[^)]*\)', '', line)
+    s = re.sub(r'[0-9a-f]{16,}', '', s)
+    return pid + ":" + re.sub(r'\W+', '-', s.strip().lower())[:90]
+
+
+def replay_obj(h, why, upto=None):
+    ops = h["ops"] if upto is None else h["ops"][:upto + 1]
+    return {"why": why, "histories": [{"id": h["id"], "shape": h.get("shape"), "own": h["own"], "own_key": h.get("own_key"),
+                                       "gov_chain": h["gov_chain"], "gov_addr": h["gov_addr"], "ops": ops}],
+            "impl_steps": [{"outs": s["outs"], "panic": s.get("panic")} for s in (h["steps"] if upto is None else h["steps"][:upto + 1])][-6:]}
+
+
+def run_replay(ctx):
+    import os
+    doc = json.load(open(ctx.replay))
+    hs = list(doc.get("histories", []))
+    for fi in doc.get("failing_inputs", []):
+        hs += fi.get("histories", [])
+    if not hs:
+        ctx.problem("machinery", "replay file", "no recorded history in %s" % ctx.replay)
+        return None
+    tmp = os.path.join(core.BUILD, "tmp", "replay_in_%s_%d.json" % (ctx.pid, os.getpid()))
+    json.dump({"histories": hs}, open(tmp, "w"))
+    rc, out, trace = core.harness_pkg(ctx, "processor", "^TestVerifProcReplay$", timeout=3000, env={"VERIF_REPLAY": tmp})
+    os.remove(tmp)
+    rows = [r for r in core.read_jsonl(trace) if r.get("k") == "hist"]
+    if rc != 0 or not rows:
+        ctx.problem("machinery", "go harness processor (replay)", out[-1500:])
+        return None
+    return rows
+
+
+def pipeline(ctx, pid, extra_classes=()):
+    """extract -> prove -> harness (or replay) -> model comparison -> monitors of this property"""
+    core.run_extract(ctx, ["processor_consts", "quorum_go", "vaa_consts"] if False else ["processor_consts", "quorum_go"])
+    core.coq_prove(ctx, pid, extra_targets=["lib/ProcWire.vo"])
+    if ctx.tier == "thorough":
+        core.coq_thorough_audit(ctx, pid)
+    rows = run_replay(ctx) if ctx.replay else run_harness(ctx)
+    if rows is None:
+        return None
+    coverage(ctx, rows)
+    # monitors (the property statement evaluated on the implementation, independent of the model)
+    nmon = 0
+    seen = set()
+    for h in rows:
+        for line in h.get("mon") or []:
+            c = mon_class(line)
+            if c is None:
+                ctx.problem("machinery", line, "history %s (%s)" % (h["id"], h.get("shape")))
+                continue
+            if c != pid and c not in extra_classes:
+                continue
+            nmon += 1
+            k = mon_key(pid, line)
+            if k in seen:
+                continue
+            seen.add(k)
+            ctx.problem("monitor", line, "observed on the real handlers, history %s (%s), after ops %s"
+                        % (h["id"], h.get("shape"), [o["k"] + (":" + o["note"] if o.get("note") else "") for o in h["ops"]][-8:]),
+                        concrete=True, replay=replay_obj(h, line), key=k)
+    ctx.cov["monitor_lines_for_this_property"] = nmon
+    # model vs implementation, step by step
+    bad = compare_with_model(ctx, rows, "cases_" + pid)
+    if bad is None:
+        return rows
+    ctx.cov["histories_compared_with_model"] = len(rows)
+    ctx.cov["model_mismatches"] = len(bad)
+    for i, step in bad[:3]:
+        h = rows[i]
+        ctx.problem("correspondence", "processor model differs from the handlers in history %s (%s) at step %d" % (h["id"], h.get("shape"), step),
+                    "op %s ; implementation outputs %s" % (json.dumps(h["ops"][step])[:300], h["steps"][step]["outs"] if step < len(h["steps"]) else "?"),
+                    concrete=False, replay=replay_obj(h, "model/implementation divergence at step %d" % step, upto=step))
+    return rows
+
+
+COMMON_ASSUMPTIONS = [
+    "ECDSA recovery, Keccak and the node's signer are oracles: theorems hold for every recover/keccak/sign function; the correspondence run uses the table of go-ethereum results recorded by the harness",
+    "one atomic step per handler (the processor is a single goroutine); the own-signature fast-path goroutine is the explicit loopback queue whose delivery order the history chooses",
+    "guardian sets learned from chain have pairwise distinct keys and at most 256 of them (op_wf); the wire format cannot express more",
+    "time: the cleanup clock is virtual (instants rewritten to now-age in whole seconds right before the call); thresholds decided at +-1 s",
+    "badger is modelled as a finite map (its durability is C16); prometheus/zap/notifier side effects are not observables",
+]
